@@ -446,6 +446,8 @@ func probeOp(w []string) string {
 		return probeDiskpackedUndo()
 	case "enumall":
 		return probeEnumAll()
+	case "encrypt":
+		return probeEncrypt(w)
 	case "filessweep":
 		if len(w) != 3 {
 			return "bad-op"
